@@ -206,6 +206,7 @@ Proof.
   - apply cok_1_0. exact Tt.
   - apply cok_normt. exact Tt.
   - destruct (dcb s d); reflexivity.
+  - destruct (dcb s d); reflexivity.
 Qed.
 
 Lemma CI_reach s : reachable_from step init s -> CI s.
